@@ -124,7 +124,7 @@ CHECKS = {
     "C20": {
         "level": "exploration",
         "technique": "TLA+ Totality.tla (a call's outcome is value or error; panic / abort / timeout have no action) with a TLC-enumerated abstract mutation space applied by the harness to valid seed documents; every call validated by TLC (Trace_Totality)",
-        "text": "49 parsing entry points (the legacy "_"-prefixed response reader and status-line reader, the request-line and header-line readers, the request-target accessors, percent decoding and the media type lookup among them; JSON object / property / array splitter / typed readers of every width, Base64 text and sequence, multipart, multipart/byteranges body, request, response, header, Content-Disposition, content-range, Range header and range spec, config file, command line, URL and query string, 4 URL-path functions, boundary, form body) x seeds x truncation and 6 byte classes at every position, 24 byte classes at 13 relative positions, deletion, duplication, nesting / long lines / repeated delimiters up to 20 000, line-ending variants, repetition of the seed 1000x, every number replaced by 32 boundary values, plus seeded random strings; each call on a 2 MiB-stack thread with a watchdog in a child process.",
+        "text": "49 parsing entry points (the legacy underscore-prefixed response reader and status-line reader, the request-line and header-line readers, the request-target accessors, percent decoding and the media type lookup among them; JSON object / property / array splitter / typed readers of every width, Base64 text and sequence, multipart, multipart/byteranges body, request, response, header, Content-Disposition, content-range, Range header and range spec, config file, command line, URL and query string, 4 URL-path functions, boundary, form body) x seeds x truncation and 6 byte classes at every position, 24 byte classes at 13 relative positions, deletion, duplication, nesting / long lines / repeated delimiters up to 20 000, line-ending variants, repetition of the seed 1000x, every number replaced by 32 boundary values, plus seeded random strings; each call on a 2 MiB-stack thread with a watchdog in a child process.",
         "note": "Unbounded input space: exploration. Invalid UTF-8 cannot be passed to String-taking entry points. Known findings KF-C20-url-parse-dependency-unwrap (panic inside the url-build-parse dependency, also reached through Request::get_uri_path / get_uri_query) and KF-C20-legacy-response-reader (Response::_parse_response unwraps at every step and recurses per head line).",
     },
     "C18": {
